@@ -28,7 +28,10 @@ def run(chk):
                 chk.classify("tracker", args, rep)
     # VisualSORT with features: look-alike detections claiming one track in the same call
     for name, kw, sim in (("v-sim7", dict(depth=7, Sim=6), {"num": 25 if quick else 300, "depth": 8}),
-                          ("v-d2", dict(depth=2, MaxDets=2, Slots={1}, Confs={900}, Feats={1, 2}, Quals={30, 90}), None)):
+                          ("v-d2", dict(depth=2, MaxDets=2, Slots={1}, Confs={900}, Feats={1, 2}, Quals={30, 90}), None),
+                          # a detection whose confidence lies below the positional floor is weighed with the floor but echoed as
+                          # it was submitted
+                          ("v-minconf", dict(depth=3, MaxDets=1, Slots={1}, Confs={900, 20}, MinConf=400, Feats={1}, Quals={90}), None)):
         r, c = tc.generate_visual(chk, name, simulate=sim, **kw)
         for kind in ("visual", "batchvisual"):
             tc.replay_visual(chk, name, r, c, kind, 2, "C01", "nt_C12")
